@@ -332,3 +332,31 @@ def write_opens(fx, hb):
         elif cd == "std::fs::write":
             out.append((n, True, cd))
     return out
+
+
+# --------------------------------------------------------------------------- chunk-wise text decoding
+
+DECODERS = ("std::string::String::from_utf8_lossy", "std::string::String::from_utf8", "std::str::from_utf8", "core::str::from_utf8",
+            "std::string::String::from_utf8_unchecked", "std::str::from_utf8_unchecked", "core::str::from_utf8_unchecked",
+            "std::string::String::from_utf8_lossy_owned", "std::string::String::from_utf16", "std::string::String::from_utf16_lossy",
+            "core::str::converts::from_utf8", "core::str::converts::from_utf8_unchecked", "core::str::<impl str>::from_utf8",
+            "core::str::<impl str>::from_utf8_unchecked", "std::str::<impl str>::from_utf8")
+PARTIAL_READS = ("std::io::Read::read", "std::io::BufRead::fill_buf", "std::io::Read::read_vectored", "std::io::Read::read_buf")
+
+
+def chunked_decodes(fx, hb):
+    """bytes→text decoding calls applied to a piece of the input rather than to all of it: the call sits inside a
+    loop, or in a body that obtains its bytes through a partial-read API (read / fill_buf). A multi-byte character
+    that straddles two pieces is then decoded wrongly (replaced, or rejected) although the whole input is valid."""
+    partial = [n for n, ps in walk_body(hb) if n.get("k") in ("Call", "MethodCall") and n.get("callee") and (n["callee"].get("def") or "") in PARTIAL_READS]
+    out = []
+    for n, ps in walk_body(hb):
+        if n.get("k") not in ("Call", "MethodCall") or not n.get("callee"):
+            continue
+        cd = n["callee"].get("def") or ""
+        if cd not in DECODERS:
+            continue
+        in_loop = any(p.get("k") == "Loop" for role, p in ps)
+        if in_loop or partial:
+            out.append((n, cd, "inside a loop" if in_loop else "after a partial read (%s)" % (partial[0]["callee"].get("def"))))
+    return out
